@@ -53,17 +53,22 @@ def gen_wide_record(rng, nkeys, depth, wild):
     ks = rng.shuffle(list(range(nkeys)))[:n]
     fs = []
     for k in ks:
-        c = rng.below(20)
-        if c < 1:
+        # the KIND of value a field holds is a function of its name (so that operands mostly agree):
+        # names 1, 4 hold records, name 5 an array, name 6 a variant, the others atoms
+        c = rng.below(40)
+        kind = "r" if k % 3 == 1 else ("a" if k == 5 else ("v" if k == 6 and rng.chance(1, 8) else "n"))
+        if c < wild:
+            kind = rng.choice(["n", "r", "a", "v"])
+        if c == 39 and rng.chance(1, 2):
             v = None
-        elif c < 14 or depth <= 0:
-            v = g.gen_atom(rng) if rng.below(40) < wild else g.canon_atom(k, depth)
-        elif c < 18:
+        elif kind == "r" and depth > 0:
             v = gen_wide_record(rng, nkeys, depth - 1, wild)
-        elif c < 19:
-            v = ("a", [g.canon_atom(k + i, depth) for i in range(rng.below(3))])
+        elif kind == "a":
+            v = ("a", [g.canon_atom(k + i, depth) for i in range(2)])
+        elif kind == "v":
+            v = ("v", 1, g.canon_atom(k, depth))
         else:
-            v = ("v", rng.below(2), g.canon_atom(k, depth))
+            v = g.gen_atom(rng) if rng.below(40) < wild else g.canon_atom(k, depth)
         cs = []
         if v is not None and v[0] in "nsb" and rng.chance(1, 5):
             good = [c for c in range(len(g.CONTRACTS)) if g.sat(c, v)]
@@ -214,7 +219,7 @@ def gen_cases(ck, n_order, n_law, salt):
     rng = core.SplitMix64(ck.seed * 104729 + salt)
     exprs = []
     for i in range(n_order):
-        exprs.append(gen_order_case(rng.fork(), wild=(10 if i % 10 == 9 else 2)))
+        exprs.append(gen_order_case(rng.fork(), wild=(10 if i % 10 == 9 else 1)))
     for i in range(n_law):
         r = rng.fork()
         a, b = g.gen_expr(r, 2, 3, 2), g.gen_expr(r, 2, 3, 2)
